@@ -7,7 +7,7 @@
       name / full : the model name as spelled in the request / its canonical form (hex)
       variant: bit 0 = F17a/b repaired (ChatHandler tools), bit 1 = F17c repaired (openai stream errors),
                bit 2 = F17b alone (non-stream call numbering), bit 3 = F17d repaired (run without done -> error),
-               bit 4 = F17e repaired (api.Client returns the scanner's error)
+               bit 4 = F17e repaired (api.Client returns the scanner's error), bit 5 = F17f repaired (C17-F17f.patch)
       hist   : generate: the request supplies `context`; chat: the conversation has more than one message
       fault  : none | load:<hex> | detok:<hex> | tok:<hex>   (runner method failing outside Completion)
       ep     : gen | chat | oachat | oacmpl | cgen | cchat
@@ -200,12 +200,13 @@ def handle (toks : List String) : Option String :=
       let climit ← nat
       let lens ← listOf nat
       let fixC := variant / 16 % 2 == 1
+      let fixF := variant / 32 % 2 == 1
       let withLens {α : Type} (items : List (Item α)) : List (Item α × Nat) :=
         items.zip (lens ++ List.replicate items.length 0)
       match ep with
       | "gen" => pure (showReply showGen (generateR v stream q f raw hasCtx pl cs e))
       | "chat" => pure (showReply showChat (chatR v stream q f parse tools hasCtx cs e))
-      | "oachat" => pure (showOaR (oaChatR v stream usage (chatR v stream q f parse tools hasCtx cs e)))
+      | "oachat" => pure (showOaR (oaChatRF fixF v stream usage (chatR v stream q f parse tools hasCtx cs e)))
       | "oacmpl" => pure (showOaR (oaCmplR v stream usage (generateR v stream q f false hasCtx pl cs e)))
       | "cgen" => pure (showClient showGen (clientViewL climit fixC (withLens (generateR v stream q f raw hasCtx pl cs e).lines)))
       | "cchat" => pure (showClient showChat (clientViewL climit fixC (withLens (chatR v stream q f parse tools hasCtx cs e).lines)))
